@@ -1,4 +1,4 @@
-\* ShardedMailbox with the repaired finishShardDrain (FixF3): 3 producers x 1 Submit, 2 shards, 1 slot per shard, ONE worker (executor overload), batches of up to 2.
+\* ShardedMailbox as the code is (FixF3): 3 producers x 1 Submit, 2 shards, 1 slot per shard, ONE worker (executor overload), batches of up to 2.
 SPECIFICATION Spec
 CONSTANTS
   NP = 3
